@@ -87,7 +87,7 @@ package internal
 //@   fresh
 //@   ensures result != nil
 //@   ensures result.Value >= ageAt(a0, responseTime, old(now))                                                   # name: age-lower
-//@   ensures (isDigits(hget(h, "Age")) || hget(h, "Age") == "") ==> result.Value <= ageAt(a0, responseTime, result.Timestamp)   # name: age-upper
+//@   ensures result.Value <= ageAt(a0, responseTime, result.Timestamp)                                           # name: age-upper
 //@   ensures result.Timestamp == now && ns(now) >= ns(old(now))                                                  # name: timestamp
 
 //@ func addDuration
@@ -258,7 +258,7 @@ package internal
 //@   ensures result != nil && result.Age != nil && fresh(result.Age)                                  # name: shape
 //@   let reqZero = ccValid(reqCC, "max-age") && ccDur(reqCC, "max-age") == 0
 //@   ensures !reqZero ==> result.Age.Value >= ageAt(a0, entry.ReceivedAt, old(now))                  # name: age-lower
-//@   ensures (isDigits(hget(hdr, "Age")) || hget(hdr, "Age") == "") ==> result.Age.Value <= ageAt(a0, entry.ReceivedAt, result.Age.Timestamp)   # name: age-upper
+//@   ensures result.Age.Value <= ageAt(a0, entry.ReceivedAt, result.Age.Timestamp)                  # name: age-upper
 //@   ensures reqZero ==> result.IsStale && result.UsefulLife == 0 && result.Age.Value == 0          # name: request-max-age-zero
 //@   ensures ns(result.Age.Timestamp) >= ns(old(now)) && ns(result.Age.Timestamp) <= ns(now)         # name: timestamp
 //@   ensures result.UsefulLife >= 0 && result.UsefulLife <= L                                        # name: lifetime-upper
@@ -330,9 +330,14 @@ package internal
 //@   pure
 
 // ---- Age and status fields (C11) ----------------------------------------------------
-//@ spec func secsOf(d time.Duration) int = int(d / sec)
+//@ spec func secsOf(d time.Duration) int = int(d / sec) # opaque
+// Integer division by the positive constant 1e9 is monotone on non-negative values. The SMT
+// solvers do not decide this 64-bit division fact within minutes, so it is an AXIOM here
+// (assumption; mathematical statement proved in /verif/lemmas/secsof_mono.lean).
+//@ axiom secsOf-mono: forall a time.Duration, b time.Duration :: 0 <= a && a <= b ==> secsOf(a) <= secsOf(b) && secsOf(a) >= 0
 //@ func SetAgeHeader
 //@   property C11 C13
+//@   reveal secsOf
 //@   requires resp != nil && resp.Header != nil && clock != nil && age != nil
 //@   assigns map(resp.Header), now
 //@   ensures ns(now) >= ns(old(now))
@@ -340,6 +345,9 @@ package internal
 //@   ensures len(get(resp.Header, "Age")) == 1                                                               # name: replaces
 //@   ensures hget(resp.Header, "Age") == itoa(secsOf(satadd(max(age.Value, 0), max(tsub(now, age.Timestamp), 0))))  # name: value-saturating
 
+// C11: the status field and its legacy companion on a response header h
+//@ spec func cstatus(h http.Header) string = hget(h, "X-Httpcache-Status")
+//@ spec func statusIs(h http.Header, v string, fromCache bool) bool = cstatus(h) == v && len(get(h, "X-Httpcache-Status")) == 1 && ite(fromCache, hget(h, "X-From-Cache") == "1", !has(h, "X-From-Cache"))
 //@ spec func statusHdr() string = "X-Httpcache-Status"
 //@ spec func legacyHdr() string = "X-From-Cache"
 //@ func (CacheStatus).ApplyTo
@@ -348,6 +356,7 @@ package internal
 //@   assigns map(header)
 //@   ensures hget(header, "X-Httpcache-Status") == s.Value && len(get(header, "X-Httpcache-Status")) == 1    # name: single-status
 //@   ensures s.Legacy != "" ==> hget(header, "X-From-Cache") == s.Legacy                                     # name: legacy-set
+//@   ensures s.Legacy == "" ==> !has(header, "X-From-Cache")                                                 # name: legacy-removed
 //@   ensures forall k string :: k != "X-Httpcache-Status" && k != "X-From-Cache" ==> has(header, k) == old(has(header, k)) && get(header, k) == old(get(header, k))   # name: other-fields-unchanged
 
 // ---- interfaces used by the transport -----------------------------------------------
@@ -525,10 +534,14 @@ package internal
 //@   ensures (result0 != nil) != (result1 != nil)                                                  # name: result-shape   props: C10
 //@   ensures result1 != nil ==> result1 == err                                                     # name: error-is-origin-error   props: C10
 //@   ensures result0 != nil ==> result0 == old(ctx.Stored.Data) || result0 == resp                 # name: stored-or-origin-reply
+//@   ensures result0 == old(ctx.Stored.Data) && err == nil && resp.StatusCode == 304 ==> statusIs(result0.Header, "REVALIDATED", true)       # name: revalidated-marked   props: C11
+//@   ensures result0 == old(ctx.Stored.Data) && !(err == nil && resp.StatusCode == 304) ==> statusIs(result0.Header, "STALE", true) && (exists n int :: hget(result0.Header, "Age") == itoa(n) && n >= secsOf(ageIn))   # name: stale-if-error-marked   props: C11
+//@   ensures result0 != nil && result0 != old(ctx.Stored.Data) ==> (cstatus(result0.Header) == "MISS" || cstatus(result0.Header) == "BYPASS") && len(get(result0.Header, "X-Httpcache-Status")) == 1 && !has(result0.Header, "X-From-Cache")   # name: origin-reply-marked   props: C11
 //@   ensures result0 == old(ctx.Stored.Data) ==> isGet && ((err == nil && resp.StatusCode == 304) || (failed && !blocked && ((ccValidA(hs, vs, "stale-if-error") && sieWithin(ageIn, life, ccDurA(vs, "stale-if-error"))) || (ccValidA(hq, vq, "stale-if-error") && sieWithin(ageIn, life, ccDurA(vq, "stale-if-error"))))))   # name: stored-only-after-304-or-stale-if-error   props: C02 C13
 
 //@ func (*validationResponseHandler).HandleValidationResponse
 //@   implements ValidationResponseHandler.HandleValidationResponse
+//@   property C11
 //@   requires r != nil && r.l != nil && r.clock != nil && r.ci != nil && r.ce != nil && r.siep != nil && r.rs != nil
 
 //@ func hopByHopHeaders
